@@ -106,6 +106,20 @@ Proof.
   - eapply loop_wf; eassumption.
 Qed.
 
+(* the same for a record whose element values may have changed since it was built: the buffer
+   has the add-time length [len]; without an encode error (which since the record-length repair
+   includes "the fields do not fill the buffer") the current values are well-formed and occupy
+   exactly [len] octets *)
+Lemma get_buffer_n_wf len els b :
+  get_buffer_n len els = Ok (b, 0%nat) -> len = record_len els \/ len <> 0 ->
+  els_typed els = true -> wf_record els = true /\ len = record_len els.
+Proof.
+  intros H C T.
+  assert (E : len = record_len els).
+  { destruct C as [C|C]; [exact C|]. eapply get_buffer_n_noerr; eassumption. }
+  split; [|exact E]. subst len. rewrite get_buffer_n_eq in H. eapply get_buffer_wf; eassumption.
+Qed.
+
 (* ---- properties of every record the builder produces ---- *)
 Lemma recs_inv (P : rec -> Prop) :
   (forall t f els id r, build_record t f els id = Ok r -> P r) ->
@@ -273,14 +287,15 @@ Qed.
 Lemma data_recs_wf s :
   s_type s = SData -> homogeneous s = true -> set_typed s = true ->
   (forall r, In r (s_recs s) -> exists b, rec_buffer_e r = Ok (b, 0%nat)) ->
+  (forall r, In r (s_recs s) -> good_rec r \/ rec_len r <> 0) ->
   forall r, In r (s_recs s) -> rec_is_data r = true /\ wf_record (rec_els r) = true.
 Proof.
-  intros Ty Ho Tp Hb r Hr. unfold homogeneous in Ho. rewrite Ty in Ho.
+  intros Ty Ho Tp Hb HG r Hr. specialize (HG r Hr). unfold homogeneous in Ho. rewrite Ty in Ho.
   rewrite forallb_forall in Ho. specialize (Ho r Hr).
   unfold set_typed in Tp. rewrite forallb_forall in Tp. specialize (Tp r Hr).
   rewrite Ho in Tp. cbn [negb orb] in Tp. destruct (Hb r Hr) as [b Eb].
   split; [exact Ho|]. destruct r as [? ? ? ? ?|tid fc els len]; [discriminate|].
-  cbn [rec_els rec_buffer_e] in *. eapply get_buffer_wf; eassumption.
+  cbn [rec_els rec_buffer_e good_rec rec_len] in *. eapply get_buffer_n_wf; eassumption.
 Qed.
 
 Lemma tpl_pairs_same s : C09drv.tpl_pairs s = C09_lemmas.tpl_pairs s.
@@ -309,7 +324,8 @@ Proof.
     assert (Recs : s_type s = SData ->
               forall r, In r (s_recs s) -> rec_is_data r = true /\ wf_record (rec_els r) = true).
     { intros Ty. destruct (Hdata Ty) as (fc & _ & Hr). apply data_recs_wf; try assumption.
-      intros r Hin. destruct (Hr r Hin) as (_ & _ & Hb). exact Hb. }
+      - intros r Hin. destruct (Hr r Hin) as (_ & _ & Hb). exact Hb.
+      - intros r Hin. left. now apply (good_rec_set_of ops). }
     apply andb_true_iff. split.
     + destruct (s_type s) eqn:Ty; [reflexivity| |].
       * destruct (Hdata eq_refl) as (fc & Hin & Hr).
@@ -424,7 +440,8 @@ Proof.
     apply (demand_template st (ops_of ds) 0 bytes HW Hw Ty Pr Sc).
   - apply (demand_data st (ops_of ds) 0 bytes HW Hw Ty); [|exact Sc].
     intros r0 Hin _.
-    apply (data_recs_wf s Ty Ho Tp (send_ok_data_bufs st s 0 _ R Ty) r0 Hin).
+    apply (data_recs_wf s Ty Ho Tp (send_ok_data_bufs st s 0 _ R Ty)
+             (fun r Hr => or_introl (good_rec_set_of (ops_of ds) r Hr)) r0 Hin).
   - unfold c02_in_scope in Sc. rewrite Ty in Sc. discriminate.
 Qed.
 
